@@ -21,7 +21,9 @@
 (***************************************************************************)
 EXTENDS RouteProps, TLC
 
-CONSTANTS Cfgs,      \* configurations: [writers, primary, dupe0, dupo0, spec0, ...pass-through fields]
+CONSTANTS Cfgs,      \* configurations: [writers, primary, dupe0, dupo0, spec0, ...pass-through fields];
+                     \* primary = default channel: "file" (log_to_file), "pw" (log_to_writer), "both"
+                     \* (log_to_file_and_writer), "none" (do_not_log), "stdout", "stderr"
           Targets,   \* targets a Log step may use ([brace, toks, plain])
           Lvls,      \* record levels (subset of 1..5)
           Mods,      \* module paths of records ("" = absent)
@@ -101,7 +103,8 @@ Outcome(c, r) ==
     [got  |-> [n \in Names(c.writers) |-> Occurs(r.outs, n)],
      file |-> IF HasFile(c) THEN Occurs(r.outs, "file") ELSE -1,
      pw   |-> IF HasPw(c) THEN Occurs(r.outs, "pw") ELSE -1,
-     \* stderr / stdout exist in every configuration (LogTarget::Multi)
+     \* stderr / stdout exist in every configuration: as duplicates (LogTarget::Multi) or as the default
+     \* channel itself (primary "stderr" / "stdout": LogTarget::StdErr / StdOut, PrimaryWriter::Std)
      err  |-> Occurs(r.outs, "err"),
      out  |-> Occurs(r.outs, "out"),
      errs |-> r.errs]
